@@ -128,7 +128,7 @@ def run_direct(chk, n_cfg):
                 outcome = ['unexpected', exn_name(e)]
             conn.socket.send = orig_send
             got = ([list(x) for x in log], outcome)
-            reqs.append(('write_out', [rel, mk(True, True), mk(False, True), [], [k, ci]]))
+            reqs.append(('write_out', [rel, mk(True, True), mk(False, True), [[k, [2, 777]]] if fault else [], [k, ci]]))      # 777: the socket's error
             metas.append(('out', cfg, got, {'listeners': [[i, e, o, flt, {str(kk): str(v) for kk, v in beh.items()}] for i, e, o, flt, beh in ls], 'packet': [k, ci],
                                             'socket_fails': fault, 'connected': conn.connected}))
     res = run_model(reqs)
@@ -136,9 +136,8 @@ def run_direct(chk, n_cfg):
         ev, oc = r
         exp_log = [['L', e[1], e[2]] if e[0] == 0 else ['R', e[1]] if e[0] == 1 else ['W', e[1]] for e in ev]
         exp_out = [0] if oc[0] in (0, 1) else [2, oc[1]]      # IgnorePacket is swallowed: the caller sees a normal return
-        if case.get('socket_fails') and any(e[0] == 'W' for e in exp_log):
-            exp_log = exp_log[:next(i for i, e in enumerate(exp_log) if e[0] == 'W')]
-            exp_out = ['io']
+        if oc[0] == 2 and oc[1] == 777:
+            exp_out = ['io']                       # the model's write raised: the socket's error reaches the caller
             chk.tally('out:socket-failed')
         nmatch = sum(1 for e in exp_log if e[0] == 'L')
         chk.count(kind, case, nmatch >= 2)
